@@ -10,5 +10,7 @@ CONSTANTS
   LeafKind = "blobs"
   WithSemi = FALSE
   Radii = {2}
+  Margin = 1
+  ProbeOdd = FALSE
 INVARIANT StepsSound
 CHECK_DEADLOCK FALSE
